@@ -415,4 +415,47 @@ func rdModule(from, to, perPkg int, concs []rdConc, obsOf []map[string]any) erro
 	return nil
 }
 
-func (runtimedocFam) Rand(n int, rng *rand.Rand, emit func(cas any)) error { return nil }
+func (runtimedocFam) Rand(n int, rng *rand.Rand, emit func(cas any)) error {
+	classes := []string{"plain", "quotes", "backslash", "backquote", "percent", "atname", "unicode", "namefirst", "namedouble", "tagplus", "tagat"}
+	doc := func(maxLen int, allowName bool) []string {
+		ln := 3 + rng.IntN(maxLen-2)
+		out := []string{}
+		for i := 0; i < ln; i++ {
+			c := classes[rng.IntN(len(classes))]
+			if !allowName && (c == "namefirst" || c == "namedouble") {
+				c = "plain"
+			}
+			// an empty // line only in the interior of the group and never twice in a row
+			if i > 0 && i < ln-1 && rng.IntN(5) == 0 && out[len(out)-1] != "blank" {
+				c = "blank"
+			}
+			out = append(out, c)
+		}
+		// among the lines that are documentation (not tags) a blank line must stay interior and single - what happens to a
+		// blank line that becomes the first, the last or a doubled one once the tag lines are taken out is not specified
+		idx := []int{}
+		for i, c := range out {
+			if c != "tagplus" && c != "tagat" {
+				idx = append(idx, i)
+			}
+		}
+		for k, i := range idx {
+			if out[i] == "blank" && (k == 0 || k == len(idx)-1 || out[idx[k-1]] == "blank") {
+				out[i] = "plain"
+			}
+		}
+		return out
+	}
+	kinds := []string{"struct", "genericStruct", "scalar", "map", "slice", "func"}
+	fps := []string{"one", "withUnexported", "anonStruct", "emptyNamed", "embedValue", "embedPointer", "embedDocumented", "namedCovered", "two"}
+	for i := 0; i < n; i++ {
+		k := kinds[rng.IntN(len(kinds))]
+		c := map[string]any{"kind": k, "doc": doc(7, true), "fieldpat": "none", "fdoc": []string{}}
+		if k == "struct" || k == "genericStruct" {
+			c["fieldpat"] = fps[rng.IntN(len(fps))]
+			c["fdoc"] = doc(6, false)
+		}
+		emit(c)
+	}
+	return nil
+}
